@@ -104,6 +104,14 @@ type hist struct {
 	prevSC bool // previous step was a successful SetCounter
 	ended  bool
 	nsteps int
+	// hardening: caller-owned inputs must never change; earlier outputs must stay intact
+	keySnap, nonceSnap []byte
+	kept               []keptOut
+}
+
+type keptOut struct {
+	dst, want []byte
+	step      int
 }
 
 func newHist(m *mon.M, i int64, r *rand.Rand, sodium bool) *hist {
@@ -126,7 +134,9 @@ func newHist(m *mon.M, i int64, r *rand.Rand, sodium bool) *hist {
 			h.nonce[k] = 0xff
 		}
 	}
+	h.keySnap, h.nonceSnap = append([]byte{}, h.key...), append([]byte{}, h.nonce...)
 	c, err := chacha20.NewUnauthenticatedCipher(h.key, h.nonce)
+	h.inputsIntact("NewUnauthenticatedCipher")
 	if err != nil {
 		m.Violation("new-cipher-error", map[string]any{"key": mon.FullHex(h.key), "nonce": mon.FullHex(h.nonce), "err": err.Error()})
 		h.ended = true
@@ -134,6 +144,15 @@ func newHist(m *mon.M, i int64, r *rand.Rand, sodium bool) *hist {
 	}
 	h.c = c
 	return h
+}
+
+// inputsIntact: key and nonce slices handed to the package are never modified
+// (the reference is always computed from the snapshots' values).
+func (h *hist) inputsIntact(where string) {
+	if !bytes.Equal(h.key, h.keySnap) || !bytes.Equal(h.nonce, h.nonceSnap) {
+		h.m.Violation("input-modified:"+where, map[string]any{"key_before": mon.FullHex(h.keySnap), "key_after": mon.FullHex(h.key), "nonce_before": mon.FullHex(h.nonceSnap), "nonce_after": mon.FullHex(h.nonce)})
+		h.key, h.nonce = append([]byte{}, h.keySnap...), append([]byte{}, h.nonceSnap...)
+	}
 }
 
 func (h *hist) witness(extra map[string]any) map[string]any {
@@ -277,6 +296,10 @@ func (h *hist) xor(n int) {
 		if h.pos >= 1<<37 {
 			m.Count("xor_beyond_2^31_blocks", 1)
 		}
+	}
+	h.inputsIntact("XORKeyStream")
+	if n > 0 && len(h.kept) < 4 && (h.nsteps <= 2 || h.r.IntN(4) == 0) {
+		h.kept = append(h.kept, keptOut{dst, want, h.nsteps})
 	}
 	h.pos += uint64(n)
 	if n > 0 && h.pos == c03End {
@@ -481,6 +504,17 @@ func (h *hist) run() {
 	if h.ended {
 		return
 	}
+	h.runSteps()
+	h.inputsIntact("history-end")
+	for _, k := range h.kept {
+		if !bytes.Equal(k.dst, k.want) {
+			h.m.Violation("earlier-output-changed", h.witness(map[string]any{"output_of_step": k.step, "now": mon.Hex(k.dst), "was": mon.Hex(k.want)}))
+		}
+	}
+	h.m.Count("earlier_outputs_reverified", len(h.kept))
+}
+
+func (h *hist) runSteps() {
 	r := h.r
 	sel := int(h.i / 16) // deterministic sub-choice, so that every gated situation is forced for any seed
 	switch h.kind {
